@@ -56,7 +56,9 @@ ReplaceFrom(s, i, sub, rep) ==
    IF k = 0 THEN SubSeq(s, i, Len(s)) ELSE SubSeq(s, i, k - 1) \o rep \o ReplaceFrom(s, k + Len(sub), sub, rep)
 Replace(s, sub, rep) == IF sub = <<>> THEN s ELSE ReplaceFrom(s, 1, sub, rep)
 \* C variant into a buffer of maxsize bytes: the result cut to maxsize-1 bytes and terminated
-ReplaceBuf(s, sub, rep, maxsize) == LET r == Replace(s, sub, rep) IN Take(r, IF Len(r) < maxsize - 1 THEN Len(r) ELSE maxsize - 1) \o <<0>>
+\* (a buffer of size 0 cannot even hold the terminator: nothing is written)
+ReplaceBuf(s, sub, rep, maxsize) == IF maxsize = 0 THEN <<>>
+                                    ELSE LET r == Replace(s, sub, rep) IN Take(r, IF Len(r) < maxsize - 1 THEN Len(r) ELSE maxsize - 1) \o <<0>>
 
 \* argv splitter on a terminated string: at most max tokens; each token that is followed by a
 \* white-space byte gets that byte replaced by a terminator.  Result [argc, starts, image]
